@@ -22,7 +22,7 @@ import (
 // Fault enumeration: every query history x every fault point x every fault kind.
 
 var c19Lists = []scen.ListSpec{
-	{ID: 1, Text: "! list 1 (file)\n||example.org^\n||example.org/ads\n/ex[a-z]+le\\.net/\n/ad$domain=example.org\n@@||example.org^$generichide\n##.g1\nexample.org##.s1\n/x$domain=example.org\n/x$domain=sub.example.org\n/x$domain=org\n"},
+	{ID: 1, Text: "! list 1 (file)\n||example.org^\n||example.org/ads\n/ex[a-z]+le\\.net/\n/ad$domain=example.org\n@@||example.org^$generichide\n##.g1\nexample.org##.s1\n/x$domain=example.org\n/x$domain=sub.example.org\n/x$domain=org\n/ads$domain=b.test\n/pix$domain=a.test|b.test\n"},
 	{ID: 2, Text: "# list 2 (file)\n||ads.example.com^\n0.0.0.0 example.org\n:: example.org\n127.0.0.1 hosts.test alias.test\n||blocked.test^$client=10.0.0.1\n/h[o0]sts\\.test/\n||rw.test^$dnsrewrite=1.2.3.4\n0.0.0.0 shared.test\n0.0.0.0 only.test shared.test\n||shared2.test^\n||only2.test^$important\n"},
 }
 
@@ -45,6 +45,10 @@ func c19Queries() []scen.Query {
 		// several $domain rules found through different dot-suffixes of one source host
 		{Kind: "netall", URL: "http://y.test/x", Src: "http://example.org/", Type: rules.TypeScript},
 		{Kind: "netall", URL: "http://y.test/x", Src: "http://sub.example.org/", Type: rules.TypeScript},
+		// a rule filed under two $domain values: materialised through one of them,
+		// asked for through the other, whose bucket starts with a rule that is not in memory
+		{Kind: "netall", URL: "http://y.test/pix/ads", Src: "http://a.test/", Type: rules.TypeScript},
+		{Kind: "netall", URL: "http://y.test/pix/ads", Src: "http://b.test/", Type: rules.TypeScript},
 		{Kind: "dns", Host: "only.test", DNSType: 1},
 		{Kind: "dns", Host: "shared.test", DNSType: 1},
 		// not a query: further engines are built over the same storage (their
